@@ -178,7 +178,10 @@ func (mw *Middleware) Wrap(next dnsserver.Handler) (wrapped dnsserver.Handler) {
 }
 
 // processLocationErr processes the error returned by [Middleware.location] and
-// returns the properly handled and/or wrapped error.
+// returns the properly handled and/or wrapped error.  A bad ECS option is the
+// client's error: once the FORMERR response has been written the request is
+// handled, and no error is returned, since the server would answer an error
+// with a second response, a SERVFAIL.
 func (mw *Middleware) processLocationErr(
 	ctx context.Context,
 	rw dnsserver.ResponseWriter,
@@ -195,9 +198,8 @@ func (mw *Middleware) processLocationErr(
 
 	resp := mw.messages.NewRespRCode(req, dns.RcodeFormatError)
 	writeErr := rw.WriteMsg(ctx, req, resp)
-	writeErr = errors.Annotate(writeErr, "writing formerr resp: %w")
 
-	return errors.WithDeferred(origErr, writeErr)
+	return errors.Annotate(writeErr, "writing formerr resp: %w")
 }
 
 // handleDeviceResult processes the device result and indicates whether the
